@@ -55,7 +55,22 @@ func init() {
 		v := BuildNode(in)
 		switch tv := v.(type) {
 		case stackage.Stack:
-			return Tokenize(tv.String())
+			first := tv.String()
+			// the rendering is a function of the CURRENT configuration, not of what was rendered before: flip case folding
+			// after the first rendering and compare with an independently built twin that had it flipped from the start
+			twinIn := toGeneric(in).(map[string]any)
+			twinIn["fold"] = !nBool(in, "fold")
+			if twin, ok := BuildNode(twinIn).(stackage.Stack); ok {
+				tv.SetFold()
+				if second, want := tv.String(), twin.String(); second != want {
+					return Tokenize("HISTORY-DEPENDENT rendering after toggling fold: " + second + " / fresh: " + want)
+				}
+				tv.SetFold()
+				if third := tv.String(); third != first {
+					return Tokenize("HISTORY-DEPENDENT rendering after toggling fold twice: " + third + " / first: " + first)
+				}
+			}
+			return Tokenize(first)
 		case stackage.Condition:
 			return Tokenize(tv.String())
 		}
@@ -341,6 +356,10 @@ func (g *treeGen) leaf() Node {
 		return Node{"t": "leaf", "ty": "bool", "v": toksAny(Tokenize("false"))}
 	case 2:
 		return Node{"t": "leaf", "ty": "str", "v": []any{}}
+	case 3:
+		if g.rng.Intn(3) == 0 {
+			return Node{"t": "leaf", "ty": "f32", "v": toksAny(Tokenize([]string{"0.1", "1.1", "2.5", "3.3"}[g.rng.Intn(4)]))}
+		}
 	}
 	v := g.toks(1, 6, leafAlphabet)
 	// Unicode white space that is NOT a blank of the grammar, strictly inside the text (its edges are trimmed by the package)
